@@ -269,7 +269,10 @@ def run_property(pid, tier="quick", seed=0):
         "assumptions": plan.assumptions, "wall_s": round(time.time() - t0, 2),
         "violations": len(violations),
     }
-    os.makedirs(os.path.join(VERIF, "evidence"), exist_ok=True)
-    with open(os.path.join(VERIF, "evidence", "%s.json" % pid), "w") as f:
+    # evidence of runs against a scratch tree (VF_REPO) must never overwrite the evidence of /repo itself
+    evdir = os.environ.get("VF_EVIDENCE_DIR") or (
+        os.path.join(VERIF, "evidence") if os.path.realpath(loader.REPO) == "/repo" else os.path.join(VERIF, ".scratch", "evidence"))
+    os.makedirs(evdir, exist_ok=True)
+    with open(os.path.join(evdir, "%s.json" % pid), "w") as f:
         json.dump(evidence, f, indent=1, default=str)
     return code, lines, evidence
